@@ -45,14 +45,21 @@ Section Routing.
 
   Inductive routed := ToUpstream (id : nat) | RedirectSlash | NotFound.
 
-  (* the upstream mux including the trailing-slash redirect registered last *)
-  Definition route (l : list upstream) (p : str) : routed :=
+  (* the upstream mux including the trailing-slash redirect registered last.  p is the path the mux
+     matches plain routes on (the escaped path with raw-path proxying, else the decoded one), dec the
+     decoded path whose last byte registerTrailingSlashHandler looks at, probe the path the mux sees
+     for the clone with "/" appended to its decoded path (its stale RawPath no longer fits, so the
+     escaped form is recomputed from the decoded path). *)
+  Definition route_gen (l : list upstream) (p dec probe : str) : routed :=
     match first_match l p with
     | Some u => ToUpstream (u_id u)
     | None =>
-      if suffixb [slash] p then NotFound
-      else match first_match l (p ++ [slash]) with Some _ => RedirectSlash | None => NotFound end
+      if suffixb [slash] dec then NotFound
+      else match first_match l probe with Some _ => RedirectSlash | None => NotFound end
     end.
+
+  (* without raw-path proxying the three coincide *)
+  Definition route (l : list upstream) (p : str) : routed := route_gen l p p (p ++ [slash]).
 End Routing.
 
 (* pkg/upstream/rewrite.go (with the fix: commits): rewritePath / splitPathAndQuery.  The regular-expression
